@@ -228,7 +228,8 @@ fn unknown_failures(known: &[KnownFinding], out: &CaseOut) -> Vec<Failure> {
 
 // --- watchdog ------------------------------------------------------------------------------
 
-static WATCH_SLOTS: Mutex<Vec<(u64, String)>> = Mutex::new(Vec::new());
+type Describe = Box<dyn Fn() -> String + Send>;
+static WATCH_SLOTS: Mutex<Vec<(u64, Option<Describe>)>> = Mutex::new(Vec::new());
 static WATCH_ON: AtomicBool = AtomicBool::new(false);
 static WATCH_LIMIT_S: AtomicU64 = AtomicU64::new(120);
 static START: Mutex<Option<Instant>> = Mutex::new(None);
@@ -241,7 +242,7 @@ fn now_ms() -> u64 {
 
 thread_local! { static SLOT: RefCell<Option<usize>> = const { RefCell::new(None) }; }
 
-fn watch_begin(desc: impl FnOnce() -> String) {
+fn watch_begin(desc: Describe) {
     if !WATCH_ON.load(Ordering::Relaxed) {
         return;
     }
@@ -251,14 +252,14 @@ fn watch_begin(desc: impl FnOnce() -> String) {
             i
         } else {
             let mut g = WATCH_SLOTS.lock().unwrap();
-            g.push((0, String::new()));
+            g.push((0, None));
             let i = g.len() - 1;
             *s = Some(i);
             i
         }
     });
     let mut g = WATCH_SLOTS.lock().unwrap();
-    g[idx] = (now_ms(), desc());
+    g[idx] = (now_ms(), Some(desc));
 }
 
 fn watch_end() {
@@ -284,7 +285,7 @@ pub fn start_watchdog(prop: &'static str, limit_s: u64) {
         for (t0, desc) in g.iter() {
             if *t0 != 0 && now.saturating_sub(*t0) > WATCH_LIMIT_S.load(Ordering::Relaxed) * 1000 {
                 let path = format!("/verif/replays/{}-watchdog.json", prop);
-                let _ = std::fs::write(&path, desc);
+                let _ = std::fs::write(&path, desc.as_ref().map(|d| d()).unwrap_or_default());
                 println!(
                     "INCONCLUSIVE property={} a single case exceeded the {} s wall-clock watchdog; case written to {}",
                     prop,
@@ -334,7 +335,8 @@ where
                 let mut stats = ShardStats::default();
                 let mut viol = None;
                 for (i, v) in chunk_cases.iter().enumerate() {
-                    watch_begin(|| serde_json::to_string(v).unwrap_or_default());
+                    let vc = v.clone();
+                    watch_begin(Box::new(move || serde_json::to_string(&vc).unwrap_or_default()));
                     let out = guarded(check, v);
                     watch_end();
                     stats.record(v, &out, &ctx.known);
@@ -387,7 +389,8 @@ where
                 let failed = std::cell::Cell::new(false);
                 let known = &ctx.known;
                 let res = runner.run(&strategy, |v| {
-                    watch_begin(|| serde_json::to_string(&v).unwrap_or_default());
+                    let vc = v.clone();
+                    watch_begin(Box::new(move || serde_json::to_string(&vc).unwrap_or_default()));
                     let out = guarded(check, &v);
                     watch_end();
                     if !failed.get() {
